@@ -11,7 +11,7 @@ import (
 
 // expression forms of a setting
 type refExpr struct {
-	form int    // 0 literal, 1 ${X}, 2 p${X}s, 3 ${X}${Y}, 4 ${X:dflt}, 5 ${X:${Y}}, 6 ${X}-${Y}
+	form int    // 0 literal, 1 ${X}, 2 p${X}s, 3 ${X}${Y}, 4 ${X:dflt}, 5 ${X:${Y}}, 6 ${X}-${Y}, 7 ${X:+alt}${Y}
 	x, y string
 	lit  string
 }
@@ -30,8 +30,10 @@ func (e refExpr) text() string {
 		return "${" + e.x + ":dflt}"
 	case 5:
 		return "${" + e.x + ":${" + e.y + "}}"
-	default:
+	case 6:
 		return "${" + e.x + "}-${" + e.y + "}"
+	default:
+		return "${" + e.x + ":+alt}${" + e.y + "}"
 	}
 }
 
@@ -48,6 +50,9 @@ type refGraph map[string]refExpr
 // cycle evaluates to is not pinned down by the statement ("may absorb"), so
 // value assertions are made only for evaluations without any re-entry.
 var sawCycle bool
+
+// unspecified: the last oracle evaluation met a corner the statement leaves open.
+var unspecified bool
 
 // evalRef: the statement's semantics. open = references currently being evaluated.
 func (g refGraph) evalName(name string, open map[string]bool) (string, int) {
@@ -103,21 +108,37 @@ func (g refGraph) evalExpr(e refExpr, open map[string]bool) (string, int) {
 			return "dflt", rOK
 		}
 		return v, rOK
-	default:
+	case 5:
 		v, st := g.ref(e.x, open)
 		if st == rOK && v != "" {
 			return v, rOK
 		}
 		return g.ref(e.y, open)
+	default:
+		// alternative: "alt" when X is set (it need not evaluate), then a plain reference
+		alt := ""
+		if _, ok := g[e.x]; ok {
+			alt = "alt" // X exists: it is set, whatever it would evaluate to
+			if open[e.x] {
+				// ":+" on a variable that is itself being evaluated: "set" or "cyclic" is not pinned down
+				sawCycle = true
+				unspecified = true
+			}
+		}
+		v2, st := g.ref(e.y, open)
+		if st != rOK {
+			return "", st
+		}
+		return alt + v2, rOK
 	}
 }
 
 func genRefExpr(name string, names []string, lit string) refExpr {
-	e := refExpr{form: verif.Choice(name+".form", 7), lit: lit}
+	e := refExpr{form: verif.Choice(name+".form", 8), lit: lit}
 	if e.form >= 1 {
 		e.x = names[verif.Choice(name+".x", len(names))]
 	}
-	if e.form == 3 || e.form == 5 || e.form == 6 {
+	if e.form == 3 || e.form == 5 || e.form == 6 || e.form == 7 {
 		e.y = names[verif.Choice(name+".y", len(names))]
 	}
 	return e
@@ -148,12 +169,15 @@ func H_C08_graph() {
 	switch entry {
 	case 0, 1, 2:
 		name := []string{"a", "b", "c"}[entry]
-		sawCycle = false
+		sawCycle, unspecified = false, false
 		want, st := g.evalName(name, map[string]bool{})
 		got, err := c.String(name, -1, opts...)
-		if st == rOK && sawCycle {
-			verif.Reach("absorbed cycle: termination only")
+		if unspecified {
+			verif.Reach("unspecified corner: termination only")
 			return
+		}
+		if st == rOK && sawCycle {
+			verif.Reach("absorbed cycle") // a single read: the value is the statement's (the default takes over)
 		}
 		switch st {
 		case rOK:
@@ -175,7 +199,9 @@ func H_C08_graph() {
 			g.evalName(n, map[string]bool{})
 		}
 		if sawCycle {
-			// a cycle somewhere (possibly absorbed): only termination is claimed for the whole-config read
+			// a cycle somewhere (possibly absorbed): within one whole-config read the implementation caches
+			// what a setting evaluated to in the context where it was first needed, and what an absorbed
+			// cycle yields is not pinned down by the statement: only termination is claimed here
 			verif.Reach("absorbed cycle: termination only")
 			return
 		}
@@ -240,4 +266,39 @@ func H_C08_objects() {
 		verif.Reach("diff returned")
 	}
 	verif.Reach("object graph read")
+}
+
+// H_C08_triple: three mutually referencing settings (quick tier complement of H_C08_graph, which
+// varies two): a combines b and c, and b / c refer to each other with and without defaults.
+func H_C08_triple() {
+	names := []string{"b", "c"}
+	g := refGraph{}
+	g["a"] = refExpr{form: []int{3, 6}[verif.Choice("a.form", 2)], x: "b", y: "c"}
+	for _, n := range names {
+		e := refExpr{form: []int{0, 1, 2, 4, 5}[verif.Choice(n+".form", 5)], lit: "v" + n}
+		if e.form >= 1 {
+			e.x = names[verif.Choice(n+".x", 2)]
+		}
+		if e.form == 5 {
+			e.y = names[verif.Choice(n+".y", 2)]
+		}
+		g[n] = e
+	}
+	opts := []ucfg.Option{ucfg.VarExp, ucfg.PathSep(".")}
+	in := map[string]interface{}{}
+	for k, e := range g {
+		in[k] = e.text()
+	}
+	c, err := ucfg.NewFrom(in, opts...)
+	verif.Assume(err == nil)
+	name := []string{"a", "b", "c"}[verif.Choice("read", 3)]
+	sawCycle, unspecified = false, false
+	want, st := g.evalName(name, map[string]bool{})
+	got, err := c.String(name, -1, opts...)
+	verif.Reach("triple read")
+	if st == rOK {
+		verif.Assert(err == nil && got == want, "C08/triple: evaluation without an unabsorbed re-entry succeeds with the substituted value")
+	} else {
+		verif.Assert(err != nil, "C08/triple: re-entered or unresolvable reference is an error")
+	}
 }
